@@ -48,7 +48,8 @@ Section C12.
     last (run_cached re_match re_replace ip_allow ideal sv [] (h1 ++ [(keep1, rq)])%list) Panicked =
     last (run_cached re_match re_replace ip_allow ideal sv [] (h2 ++ [(keep2, rq)])%list) Panicked.
   Proof. exact (no_cross_request_influence re_match re_replace ip_allow). Qed.
-  (** transparency over histories with reloads: requests interleaved with [OReload sv'] steps
+  (** transparency over histories with reloads and MuxMapper changes: [OMap m] steps (pipelines
+      created, deleted, replaced - no reload, the cache is kept) and [OReload sv'] steps
       (identical spec, changed options/filters, different rules - any [sv']), arbitrary
       eviction before every request: the cached server answers like the cache-less twin that
       is reloaded at the same points *)
